@@ -18,12 +18,11 @@ contract(
 # ---- assumed relation between the standard-library validators (ipaddress.IPv4Address, socket.inet_aton)
 contract(
     "multidecoder.decoders.network.is_ip",
-    props=["C10"],
-    trusted=True,
+    props=["C10", "C01"],
     types={"ip": "bytes"},
     returns="bool",
     ensures={"canonical-quad": "iff(result, canon_quad(ip))"},
-    notes="ASSUMED: IPv4Address(text) accepts exactly the canonical dotted quads (four decimal parts 0-255 without leading zeros)",
+    notes="verified against the ASSUMED behaviour of ipaddress.IPv4Address(text): it accepts exactly the canonical dotted quads",
 )
 contract(
     "multidecoder.decoders.network.parse_ip",
